@@ -363,6 +363,24 @@ def run_case(ck, desc):
         if not (np.array_equal(c_before, c_after, equal_nan=True) and np.array_equal(l_before, l_after, equal_nan=True)):
             ck.violation("object-independent-of-later-edits-of-the-callers-table", {"form": form, "max_rel_change_c": float(np.nanmax(np.abs(c_after / c_before - 1))), "max_rel_change_lambda": float(np.nanmax(np.abs(l_after / l_before - 1)))}, desc)
         ck.count(f"objects_re-evaluated_after_caller_edited_table.{form}")
+    # ... and after the caller edits the DENSITIES mapping it passed (one working dict in a density
+    # sensitivity loop) and builds the next object from it: the first object keeps the densities it was given
+    dens_work = dict(refd)
+    with warnings.catch_warnings(), np.errstate(all="ignore"):
+        warnings.simplefilter("ignore")
+        obj_d = fp.FlowPropertiesTwoPhase.from_table({k: np.array(v, dtype=float, copy=True) for k, v in cols.items()}, df_kr, dens_work, phi, Sw, float(P[ki]))
+        c_before = np.array(fp.compressibility_combined_func(pe, Soe, phi, Sw, obj_d.pvt), dtype=float, copy=True)
+        l_before = np.array(fp.lambda_combined_func(pe, Soe, obj_d.pvt, obj_d.kr), dtype=float, copy=True)
+        held_before = {n_: float(obj_d.pvt[n_]) for n_ in names}
+        for n_, f_ in zip(names, (3.0, 0.25, 1.7)):
+            dens_work[n_] = dens_work[n_] * f_ + 0.01
+        fp.FlowPropertiesTwoPhase.from_table({k: np.array(v, dtype=float, copy=True) for k, v in cols.items()}, df_kr, dens_work, phi, Sw, float(P[ki]))
+        c_after = np.asarray(fp.compressibility_combined_func(pe, Soe, phi, Sw, obj_d.pvt), dtype=float)
+        l_after = np.asarray(fp.lambda_combined_func(pe, Soe, obj_d.pvt, obj_d.kr), dtype=float)
+        held_after = {n_: float(obj_d.pvt[n_]) for n_ in names}
+    if held_after != held_before or not (np.array_equal(c_before, c_after, equal_nan=True) and np.array_equal(l_before, l_after, equal_nan=True)):
+        ck.violation("object-independent-of-later-edits-of-the-callers-densities", {"densities_held_before": held_before, "densities_held_after": held_after, "max_rel_change_lambda": float(np.nanmax(np.abs(l_after / np.where(l_before == 0, 1, l_before) - 1)))}, desc)
+    ck.count("objects_re-evaluated_after_caller_edited_densities")
     # the object is USED by a reservoir (a short two-phase simulation with recovery) before its
     # tabulated diffusivity is read below: users of the object only read it
     if int(phi * 1e4) % 3 == 0:
